@@ -129,14 +129,11 @@ theorem packFinish_shape (info : CompId → CompInfo) (e : Handle) (isCreate : B
 
 /-! ## the second half of a pack -/
 
-/-- what a pack on an existing entity needs from the state: its location is a row of its archetype, the archetype's
-mask is closed under the dependencies (declared before the archetype was created), the key (mask, shared instances)
-names that archetype only -/
+/-- what a pack on an existing entity needs from the state: its location is a row of its archetype. (Nothing about the
+archetype's mask being closed under the dependencies, nothing about its key: an entity whose set did not change stays
+where it is without a lookup, and a changed set is looked up whatever the old mask was.) -/
 structure TargetOK (w : WM) (e : Handle) (pi : Nat) : Prop where
   idx : (w.locOf e).idx < (w.arch pi).rows.length
-  closed : closedMask w.deps (w.arch pi).mask = (w.arch pi).mask
-  distinct : ∀ aj, aj < w.archs.length → (w.arch aj).mask = (w.arch pi).mask →
-    (w.arch aj).shared.data = (w.arch pi).shared.data → aj = pi
 
 theorem supplied_contains (st : PackLife) (hk : st.srcIdx.map (·.1) = st.p.src.map (·.1)) (x : CompId) :
     (Mask.ofList (st.p.src.map (·.1))).contains x = true ↔ x ∈ st.srcIdx.map (·.1) := by
@@ -176,7 +173,7 @@ theorem packFinish_accepts (info : CompId → CompInfo) (t : Nat) (F : SlotState
     (initial : Mask) (e : Handle) (isCreate : Bool) (sh : Shared) (st : PackLife) (cbs : List Cb)
     (inv : LifeFold t F (live w0 F) w1 initial st)
     (hnc : isCreate = false → st.p.dead = false → ∃ pi, (w1.locOf e).arch = some pi ∧ TargetOK w1 e pi ∧
-      initial = closedMask w1.deps (w1.arch pi).mask ∧ sh = (w1.arch pi).shared) :
+      initial = (w1.arch pi).mask ∧ sh = (w1.arch pi).shared) :
     accepts (live w0 F) (packFinishEvents t e isCreate initial sh st) =
       some (live (packFinish info e isCreate initial sh (st.w, st.p, cbs)).1 F) ∧
     MasksOk (packFinish info e isCreate initial sh (st.w, st.p, cbs)).1 := by
@@ -192,27 +189,8 @@ theorem packFinish_accepts (info : CompId → CompInfo) (t : Nat) (F : SlotState
     have hS0 : live w0 F = live st.w F := by
       have := inv.ok; rw [hevs] at this; exact Option.some.inj this
     have hshape := packFinish_shape info e isCreate initial sh st.w st.p cbs hd'
-    -- the archetype of an unchanged set is the entity's own (closed mask, unique key): staying = looking it up
-    have hT : packTarget e isCreate initial sh st.w st.p = st.w.getArch st.p.final sh := by
-      apply packTarget_eq_getArch
-      intro hic hfin pi hla
-      rcases hnc hic hd' with ⟨pi', hla', htgt, hinit, hshd⟩
-      have hlo : st.w.locOf e = w1.locOf e := by unfold WM.locOf; rw [hlocs]
-      rw [hlo, hla'] at hla
-      cases hla
-      have harch1 : ∀ a, st.w.arch a = w1.arch a := fun a => by rw [arch_def, arch_def, harchs]
-      have hpilt : pi < st.w.archs.length := by
-        rw [harchs]; exact lt_archs_of_rows htgt.idx
-      have hinit' : initial = (w1.arch pi).mask := by rw [hinit, htgt.closed]
-      have hfin' : closedMask st.w.deps st.p.final = (w1.arch pi).mask := by
-        rw [← hfin, hinit', hdeps, htgt.closed]
-      rcases getArch_cases st.w st.p.final sh with ⟨h1, hlt, hm, hs⟩ | ⟨_, _, hnone⟩
-      · refine Prod.ext h1 ?_
-        apply htgt.distinct _ (by rw [← harchs]; exact hlt)
-        · rw [← harch1, hm, hfin']
-        · rw [← harch1, hs, hshd]
-      · exact absurd ⟨by rw [harch1, hfin'], by rw [harch1, hshd]⟩ (findArch_none hnone pi hpilt)
-    have hT' : packTargetArch e isCreate initial sh st.w st.p = st.w.getArch st.p.final sh := hT
+    have hlo : st.w.locOf e = w1.locOf e := by unfold WM.locOf; rw [hlocs]
+    have harch1 : ∀ a, st.w.arch a = w1.arch a := fun a => by rw [arch_def, arch_def, harchs]
     rw [hshape.live F]
     refine ⟨?_, hshape.masksOk ?_⟩
     all_goals
@@ -222,11 +200,13 @@ theorem packFinish_accepts (info : CompId → CompInfo) (t : Nat) (F : SlotState
       have hLsrcOf : ∀ (wM : WM), ∀ ck ∈ st.srcIdx, live wM F (.temp t ck.2 ck.1) = true := by
         intro wM ck hck; rw [live_temp]; exact inv.temps ck hck
     -- the events
-    · unfold packFinishEvents packMoved
-      rw [if_neg hd, hevs, hS0]
-      simp only [List.nil_append, hT, hT']
-      cases hic : isCreate with
+    · cases hic : isCreate with
       | true =>
+        have hT : packTarget e true initial sh st.w st.p = st.w.getArch st.p.final sh := rfl
+        have hT' : packTargetArch e true initial sh st.w st.p = st.w.getArch st.p.final sh := hT
+        unfold packFinishEvents packMoved
+        rw [if_neg hd, hevs, hS0]
+        simp only [List.nil_append, hT, hT']
         simp only [if_true, List.append_assoc]
         have hai := getArch_idx_lt st.w st.p.final sh
         have hsh := archInsert_shape info (st.w.getArch st.p.final sh).1 (st.w.getArch st.p.final sh).2 e
@@ -253,35 +233,23 @@ theorem packFinish_accepts (info : CompId → CompInfo) (t : Nat) (F : SlotState
             · exact ⟨(hsup x).mp hs, ht⟩
             · exact absurd ⟨rfl, hs⟩ h4
       | false =>
-        simp only [Bool.false_eq_true, if_false]
         rcases hnc hic hd' with ⟨pi, hla, htgt, hinit, hshd⟩
-        have hloc : (st.w.getArch st.p.final sh).1.locOf e = w1.locOf e := by
-          unfold WM.locOf; rw [getArch_locs, hlocs]
-        have harch1 : ∀ a, st.w.arch a = w1.arch a := fun a => by rw [arch_def, arch_def, harchs]
         have hpilt : pi < st.w.archs.length := by
           rw [harchs]; exact lt_archs_of_rows htgt.idx
-        have hinit' : initial = (w1.arch pi).mask := by rw [hinit, htgt.closed]
-        rw [hloc, hla]
-        simp only
-        by_cases hun : (pi = (st.w.getArch st.p.final sh).2 || initial == st.p.final) = true
-        · rw [if_pos hun, if_pos hun]
-          simp only [List.nil_append]
-          -- the target is the entity's own archetype
-          have hti : (st.w.getArch st.p.final sh).2 = pi := by
-            simp only [Bool.or_eq_true, decide_eq_true_eq, beq_iff_eq] at hun
-            rcases hun with h | h
-            · exact h.symm
-            · have hfin : closedMask st.w.deps st.p.final = (w1.arch pi).mask := by
-                rw [← h, hinit', hdeps, htgt.closed]
-              rcases getArch_cases st.w st.p.final sh with ⟨_, hlt, hm, hs⟩ | ⟨_, _, hnone⟩
-              · apply htgt.distinct _ (by rw [← harchs]; exact hlt)
-                · rw [← harch1, hm, hfin]
-                · rw [← harch1, hs, hshd]
-              · exact absurd ⟨by rw [harch1, hfin], by rw [harch1, hshd]⟩ (findArch_none hnone pi hpilt)
-          have hpa : (st.w.getArch st.p.final sh).1.arch pi = w1.arch pi := by
-            rw [getArch_arch_lt _ _ _ _ hpilt, harch1]
-          rw [hti, hpa, ← live_getArch st.w st.p.final sh F]
-          have := accepts_packTail (live (st.w.getArch st.p.final sh).1 F) t pi (w1.locOf e).idx (w1.arch pi).mask []
+        -- no move: the supplied values replace stale instances of row `(pi, idx)`
+        have hstayTail : ∀ (wL : WM), wL.arch pi = w1.arch pi →
+            accepts (live wL F)
+              (((st.p.final.filter (fun c => st.p.replaced.contains c && initial.contains c)).filter
+                  (fun c => !(false && (Mask.ofList (st.p.src.map (·.1))).contains c) &&
+                    (w1.arch pi).mask.contains c)).flatMap (fun c =>
+                  Event.destroy (.stored pi c (w1.locOf e).idx) ::
+                    (if (Mask.ofList (st.p.src.map (·.1))).contains c then []
+                      else [Event.construct (.stored pi c (w1.locOf e).idx)])) ++
+                (st.srcIdx.filter (fun ck => (w1.arch pi).mask.contains ck.1)).map (fun ck =>
+                  Event.moveConstruct (.stored pi ck.1 (w1.locOf e).idx) (.temp t ck.2 ck.1))) =
+              some (live wL F) := by
+          intro wL hpa
+          have := accepts_packTail (live wL F) t pi (w1.locOf e).idx (w1.arch pi).mask []
             ((st.p.final.filter (fun c => st.p.replaced.contains c && initial.contains c)).filter
               (fun c => !(false && (Mask.ofList (st.p.src.map (·.1))).contains c) && (w1.arch pi).mask.contains c))
             (Mask.ofList (st.p.src.map (·.1))) st.srcIdx
@@ -295,84 +263,127 @@ theorem packFinish_accepts (info : CompId → CompInfo) (t : Nat) (F : SlotState
               rw [mem_stale]
               constructor
               · rintro ⟨hk, ht⟩
-                have hxi : x ∈ initial := by rw [hinit']; exact ht
+                have hxi : x ∈ initial := by rw [hinit]; exact ht
                 exact Or.inr ⟨⟨inv.sub x hk, inv.repl x hk hxi, hxi, by simp, ht⟩, (hsup x).mpr hk⟩
               · rintro (h | ⟨⟨_, _, _, _, ht⟩, hs⟩)
                 · cases h
                 · exact ⟨(hsup x).mp hs, ht⟩)
           simpa [colSlots, removeAll_nil] using this
-        · rw [if_neg hun, if_neg hun]
-          have hne : (st.w.getArch st.p.final sh).2 ≠ pi := by
-            simp only [Bool.or_eq_true, decide_eq_true_eq, not_or] at hun
-            exact fun h => hun.1 h.symm
-          have hidx : (w1.locOf e).idx < (st.w.arch pi).rows.length := by rw [harch1]; exact htgt.idx
-          rcases move_via_getArch info st.w F hF st.p.final sh e pi (w1.locOf e).idx
-            (Mask.ofList (st.p.src.map (·.1))) inv.masks inv.fin hidx with
-            ⟨hti, _, _⟩ | ⟨_, w2, cbs2, hsome, hacc, hmask, hlen, _, _⟩
-          · exact absurd hti hne
-          · rw [hsome]
-            simp only [List.append_assoc]
-            refine accepts_append_of hacc ?_
-            rw [hkey.1]
-            apply accepts_packTail
-            · exact stale_nodup _ _ _ _ _ inv.fin
-            · intro c hc; exact ((mem_stale _ _ _ _ _ c).mp hc).2.2.2.2
-            · intro c hc hr
-              have h3 := ((mem_stale _ _ _ _ _ c).mp hc).2.2.1
-              have hr' := (List.mem_filter.mp hr).2
-              simp only [Bool.and_eq_true, Bool.not_eq_true', List.contains_eq_mem, decide_eq_false_iff_not] at hr'
-              rw [hinit', ← harch1] at h3
-              exact hr'.1 h3
-            · intro c hc; exact (List.mem_filter.mp hc).1
-            · intro c hc
-              rw [live_stored]
-              exact Or.inl ⟨by rw [hmask]; exact hc, by rw [hlen]; exact Nat.lt_succ_self _⟩
-            · exact hLsrcOf _
-            · exact inv.nodup
-            · intro x
-              rw [List.mem_filter, mem_stale]
-              simp only [Bool.and_eq_true, Bool.not_eq_true', List.contains_eq_mem, decide_eq_false_iff_not,
-                decide_eq_true_eq]
-              constructor
-              · rintro ⟨hk, ht⟩
-                by_cases hxp : x ∈ (st.w.arch pi).mask
-                · have hxi : x ∈ initial := by rw [hinit', ← harch1]; exact hxp
-                  right
-                  refine ⟨⟨inv.sub x hk, inv.repl x hk hxi, hxi, by simp, ht⟩, ?_⟩
-                  have := (hsup x).mpr hk
-                  simpa using this
-                · left
-                  refine ⟨ht, hxp, ?_⟩
-                  have := (hsup x).mpr hk
-                  simpa using this
-              · rintro (⟨ht, _, hs⟩ | ⟨⟨_, _, _, _, ht⟩, hs⟩)
-                · exact ⟨(hsup x).mp (by simpa using hs), ht⟩
-                · exact ⟨(hsup x).mp (by simpa using hs), ht⟩
+        by_cases hfin : initial = st.p.final
+        · -- the set did not change: the entity stays in its archetype, nothing is looked up
+          have hT : packTarget e false initial sh st.w st.p = (st.w, pi) :=
+            packTarget_stay e initial sh st.w st.p pi hfin (by rw [hlo]; exact hla)
+          have hT' : packTargetArch e false initial sh st.w st.p = (st.w, pi) := hT
+          rw [packMoved_stay info e initial sh st.w st.p pi (by rw [hlo]; exact hla) hT]
+          unfold packFinishEvents
+          rw [if_neg hd, hevs, hS0]
+          simp only [List.nil_append, hT', hlo, hla, Bool.false_eq_true, if_false, decide_true, Bool.true_or, if_true,
+            harch1]
+          exact hstayTail st.w (harch1 pi)
+        · have hT : packTarget e false initial sh st.w st.p = st.w.getArch st.p.final sh :=
+            packTarget_ne e false initial sh st.w st.p hfin
+          have hT' : packTargetArch e false initial sh st.w st.p = st.w.getArch st.p.final sh := hT
+          unfold packFinishEvents packMoved
+          rw [if_neg hd, hevs, hS0]
+          simp only [List.nil_append, hT, hT']
+          simp only [Bool.false_eq_true, if_false]
+          have hloc : (st.w.getArch st.p.final sh).1.locOf e = w1.locOf e := by
+            unfold WM.locOf; rw [getArch_locs, hlocs]
+          rw [hloc, hla]
+          simp only
+          by_cases hun : (pi = (st.w.getArch st.p.final sh).2 || initial == st.p.final) = true
+          · rw [if_pos hun, if_pos hun]
+            simp only [List.nil_append]
+            -- the looked-up archetype is the entity's own
+            have hti : (st.w.getArch st.p.final sh).2 = pi := by
+              simp only [Bool.or_eq_true, decide_eq_true_eq, beq_iff_eq] at hun
+              rcases hun with h | h
+              · exact h.symm
+              · exact absurd h hfin
+            have hpa : (st.w.getArch st.p.final sh).1.arch pi = w1.arch pi := by
+              rw [getArch_arch_lt _ _ _ _ hpilt, harch1]
+            rw [hti, hpa, ← live_getArch st.w st.p.final sh F]
+            exact hstayTail _ hpa
+          · rw [if_neg hun, if_neg hun]
+            have hne : (st.w.getArch st.p.final sh).2 ≠ pi := by
+              simp only [Bool.or_eq_true, decide_eq_true_eq, not_or] at hun
+              exact fun h => hun.1 h.symm
+            have hidx : (w1.locOf e).idx < (st.w.arch pi).rows.length := by rw [harch1]; exact htgt.idx
+            rcases move_via_getArch info st.w F hF st.p.final sh e pi (w1.locOf e).idx
+              (Mask.ofList (st.p.src.map (·.1))) inv.masks inv.fin hidx with
+              ⟨hti, _, _⟩ | ⟨_, w2, cbs2, hsome, hacc, hmask, hlen, _, _⟩
+            · exact absurd hti hne
+            · rw [hsome]
+              simp only [List.append_assoc]
+              refine accepts_append_of hacc ?_
+              rw [hkey.1]
+              apply accepts_packTail
+              · exact stale_nodup _ _ _ _ _ inv.fin
+              · intro c hc; exact ((mem_stale _ _ _ _ _ c).mp hc).2.2.2.2
+              · intro c hc hr
+                have h3 := ((mem_stale _ _ _ _ _ c).mp hc).2.2.1
+                have hr' := (List.mem_filter.mp hr).2
+                simp only [Bool.and_eq_true, Bool.not_eq_true', List.contains_eq_mem, decide_eq_false_iff_not] at hr'
+                rw [hinit, ← harch1] at h3
+                exact hr'.1 h3
+              · intro c hc; exact (List.mem_filter.mp hc).1
+              · intro c hc
+                rw [live_stored]
+                exact Or.inl ⟨by rw [hmask]; exact hc, by rw [hlen]; exact Nat.lt_succ_self _⟩
+              · exact hLsrcOf _
+              · exact inv.nodup
+              · intro x
+                rw [List.mem_filter, mem_stale]
+                simp only [Bool.and_eq_true, Bool.not_eq_true', List.contains_eq_mem, decide_eq_false_iff_not,
+                  decide_eq_true_eq]
+                constructor
+                · rintro ⟨hk, ht⟩
+                  by_cases hxp : x ∈ (st.w.arch pi).mask
+                  · have hxi : x ∈ initial := by rw [hinit, ← harch1]; exact hxp
+                    right
+                    refine ⟨⟨inv.sub x hk, inv.repl x hk hxi, hxi, by simp, ht⟩, ?_⟩
+                    have := (hsup x).mpr hk
+                    simpa using this
+                  · left
+                    refine ⟨ht, hxp, ?_⟩
+                    have := (hsup x).mpr hk
+                    simpa using this
+                · rintro (⟨ht, _, hs⟩ | ⟨⟨_, _, _, _, ht⟩, hs⟩)
+                  · exact ⟨(hsup x).mp (by simpa using hs), ht⟩
+                  · exact ⟨(hsup x).mp (by simpa using hs), ht⟩
     -- the masks
-    · unfold packMoved
-      simp only [hT]
-      cases hic : isCreate with
-      | true =>
-        simp only [if_true]
-        exact masksOk_congr (archInsert_shape info _ _ e _ (getArch_idx_lt _ _ _)).1 hmk1
-      | false =>
-        simp only [Bool.false_eq_true, if_false]
-        split
-        · split
-          · exact hmk1
+    · have hlookup : packTarget e isCreate initial sh st.w st.p = st.w.getArch st.p.final sh →
+          MasksOk (packMoved info e isCreate initial sh st.w st.p).1 := by
+        intro hT
+        unfold packMoved
+        simp only [hT]
+        cases hic : isCreate with
+        | true =>
+          simp only [if_true]
+          exact masksOk_congr (archInsert_shape info _ _ e _ (getArch_idx_lt _ _ _)).1 hmk1
+        | false =>
+          simp only [Bool.false_eq_true, if_false]
+          split
           · split
-            · rename_i pi _ _ _ r hr
-              have hne : (st.w.getArch st.p.final sh).2 ≠ pi := by
-                intro h; rw [h, externalMove_self] at hr; cases hr
-              rcases externalMove_eq info (st.w.getArch st.p.final sh).1 (st.w.getArch st.p.final sh).2 e pi
-                ((st.w.getArch st.p.final sh).1.locOf e).idx (Mask.ofList (st.p.src.map (·.1))) hne with ⟨cbs', heq⟩
-              rw [heq] at hr; cases hr
-              refine masksOk_congr (fun a => ?_) hmk1
-              have hr := archRemove_shape info (st.w.getArch st.p.final sh).1 pi
-                ((st.w.getArch st.p.final sh).1.locOf e).idx
-                ((st.w.getArch st.p.final sh).1.arch (st.w.getArch st.p.final sh).2).mask
-              rw [(insertRow_mask _ _ a e _ (by rw [hr.2.2]; exact getArch_idx_lt _ _ _)).1, hr.1]
             · exact hmk1
-        · exact hmk1
+            · split
+              · rename_i pi _ _ _ r hr
+                have hne : (st.w.getArch st.p.final sh).2 ≠ pi := by
+                  intro h; rw [h, externalMove_self] at hr; cases hr
+                rcases externalMove_eq info (st.w.getArch st.p.final sh).1 (st.w.getArch st.p.final sh).2 e pi
+                  ((st.w.getArch st.p.final sh).1.locOf e).idx (Mask.ofList (st.p.src.map (·.1))) hne with ⟨cbs', heq⟩
+                rw [heq] at hr; cases hr
+                refine masksOk_congr (fun a => ?_) hmk1
+                have hr := archRemove_shape info (st.w.getArch st.p.final sh).1 pi
+                  ((st.w.getArch st.p.final sh).1.locOf e).idx
+                  ((st.w.getArch st.p.final sh).1.arch (st.w.getArch st.p.final sh).2).mask
+                rw [(insertRow_mask _ _ a e _ (by rw [hr.2.2]; exact getArch_idx_lt _ _ _)).1, hr.1]
+              · exact hmk1
+          · exact hmk1
+      rcases packTarget_cases e isCreate initial sh st.w st.p with ⟨hc, _, pi, hl, hT⟩ | hT
+      · subst hc
+        rw [packMoved_stay info e initial sh st.w st.p pi hl hT]
+        exact inv.masks
+      · exact hlookup hT
 
 end Mustache.Proofs.Life
